@@ -581,26 +581,14 @@ func registerStringIntercepts() {
 			return a[0], true
 		}),
 		"strings.ToLower": sym2(func(i *interpreter, a []value) (value, bool) {
-			// atoms are declared case-stable by forbidding upper-case letters, else fail closed
 			parts, _ := ropeOf(a[0])
-			np := make([]ropePart, len(parts))
-			for k, p := range parts {
-				switch p.kind {
-				case rkLit:
-					p.lit = strings.ToLower(p.lit)
-				case rkAtom:
-					for c := byte('A'); c <= 'Z'; c++ {
-						if strings.IndexByte(p.forbid, c) < 0 {
-							panic(unmodelled{"strings.ToLower on an atom that may contain upper-case letters"})
-						}
-					}
-				}
-				np[k] = p
-			}
-			return normRope(i.W, np), true
+			return normRope(i.W, i.W.lowerRope(parts)), true
 		}),
 		"strings.EqualFold": sym2(func(i *interpreter, a []value) (value, bool) {
-			panic(unmodelled{"strings.EqualFold on symbolic strings"})
+			// ASCII case folding (atoms are printable ASCII)
+			x, _ := ropeOf(a[0])
+			y, _ := ropeOf(a[1])
+			return mkSymBool(i.W, ropeEq(i.W, i.W.lowerRope(x), i.W.lowerRope(y))), true
 		}),
 		"strconv.Itoa": sym2(func(i *interpreter, a []value) (value, bool) {
 			s := a[0].(*symInt)
@@ -743,4 +731,39 @@ func (i *interpreter) regexpCall(fn *ssa.Function, args []value) (value, bool) {
 		t[k] = i.fromNative(out[k], res.At(k).Type())
 	}
 	return t, true
+}
+
+// lowerRope returns the ASCII lower-casing of a rope. An atom gets a companion atom of the same
+// length whose characters are constrained position by position (lengths are bounded).
+func (w *Worker) lowerRope(parts []ropePart) []ropePart {
+	out := make([]ropePart, len(parts))
+	for k, p := range parts {
+		switch p.kind {
+		case rkLit:
+			p.lit = strings.ToLower(p.lit)
+		case rkAtom:
+			if w.lowered == nil {
+				w.lowered = map[*term]*term{}
+			}
+			lt := w.lowered[p.t]
+			if lt == nil {
+				w.lowSeq++
+				lt = w.declare(fmt.Sprintf("lower!%d", w.lowSeq), sStr)
+				w.inputs = w.inputs[:len(w.inputs)-1] // internal, not a harness input
+				w.assertPC(tEq(mk("str.len", sInt, lt), mk("str.len", sInt, p.t)))
+				for pos := 0; pos < p.maxLen; pos++ {
+					ix := mkInt64(int64(pos))
+					c := mk("str.to_code", sInt, mk("str.at", sStr, p.t, ix))
+					lc := tIte(tAnd(tCmp(">=", c, mkInt64(65)), tCmp("<=", c, mkInt64(90))), tAdd(c, mkInt64(32)), c)
+					inRange := tCmp("<", ix, mk("str.len", sInt, p.t))
+					w.assertPC(tImplies(inRange, tEq(mk("str.to_code", sInt, mk("str.at", sStr, lt, ix)), lc)))
+				}
+				w.lowered[p.t] = lt
+			}
+			f := p.forbid
+			p = ropePart{kind: rkAtom, t: lt, forbid: f, maxLen: p.maxLen, minLen: p.minLen}
+		}
+		out[k] = p
+	}
+	return out
 }
